@@ -910,7 +910,31 @@ func (v Value) toReflectValue(typ reflect.Type) (reflect.Value, error) {
 	panic(fmt.Errorf("invalid conversion of %v (%v) to reflect.Type: %v", v.kind, v, typ))
 }
 
+// isCanonicalIntegerName reports whether name is the string ToString produces
+// for an integer: "0", or an optional minus sign, a non-zero digit and digits.
+func isCanonicalIntegerName(name string) bool {
+	digits := strings.TrimPrefix(name, "-")
+	if digits == "" || (digits[0] == '0' && name != "0") {
+		return false
+	}
+	for _, chr := range digits {
+		if chr < '0' || chr > '9' {
+			return false
+		}
+	}
+	return true
+}
+
 func stringToReflectValue(value string, kind reflect.Kind) (reflect.Value, error) {
+	switch kind {
+	case reflect.Int, reflect.Int8, reflect.Int16, reflect.Int32, reflect.Int64,
+		reflect.Uint, reflect.Uint8, reflect.Uint16, reflect.Uint32, reflect.Uint64:
+		// A property name denotes an integer key only in its canonical spelling:
+		// "010", "0x10", "+5" or "1_0" are other names, not other ways to write a key.
+		if !isCanonicalIntegerName(value) {
+			return reflect.Value{}, fmt.Errorf("%q is not the canonical form of an integer", value)
+		}
+	}
 	switch kind {
 	case reflect.Bool:
 		value, err := strconv.ParseBool(value)
